@@ -4,7 +4,9 @@ from __future__ import annotations
 import ast
 
 from ..core import (AnalysisError, FuncInfo, Project, attr_chain, body_exits, const_int, const_str, enclosing,
-                    exc_is_caught, expand, guards_of, handler_names, local_defs, term, try_handlers_covering, unparse)
+                    exc_is_caught, expand, guards_of, handler_names, local_defs, term, try_handlers_covering, unparse,
+                    analysis_functions, atoms_at)
+from ..inline import baseline_names
 from ..patterns import Pat, consume_rule, extract_header_patterns
 from ..walkers import find_walkers
 from . import c13, c15
@@ -97,7 +99,7 @@ def rule_R1(ctx, prj, fns):
 
 def rule_R2(ctx, prj, fns):
     ctx.rule("R2", "every lexer lookup by file name is inside try/except ClassNotFound, and every Languages.by_name[k] is "
-                   "dominated by `k in Languages.by_name` in the same function or in all its callers", floor=4)
+                   "dominated by `k in Languages.by_name` in the same function or in all its callers", floor=3)
     for fi in fns:
         for c in fi.calls():
             if attr_chain(c.func) == "get_lexer_for_filename":
@@ -108,15 +110,32 @@ def rule_R2(ctx, prj, fns):
                     ctx.viol("R2", f"{fi.local}/classnotfound", fi.site(c), "get_lexer_for_filename outside try/except ClassNotFound: an unsupported file name aborts the command")
         for n in fi.walk():
             if isinstance(n, ast.Subscript) and isinstance(n.ctx, ast.Load) and term(fi, n.value).endswith("Languages.by_name"):
+                base = baseline_names()
+
                 def gated(f: FuncInfo, node, depth=0) -> bool:
-                    for g in guards_of(f, node):
-                        t = g.test
-                        if isinstance(t, ast.Compare) and isinstance(t.ops[0], ast.In) and g.polarity and "Languages.by_name" in term(f, t.comparators[0]):
+                    for t, pol in atoms_at(f, node):
+                        if isinstance(t, ast.Compare) and len(t.ops) == 1 and isinstance(t.ops[0], (ast.In, ast.NotIn)) \
+                                and (isinstance(t.ops[0], ast.In) == pol) and "Languages.by_name" in term(f, t.comparators[0]):
+                            return True
+                        tx = term(f, t)
+                        if pol and ("Languages.by_name.get(" in tx) and not isinstance(t, ast.Compare):
                             return True
                     if depth > 3:
                         return False
-                    callers = prj.callgraph.callers_of(f.qual)
-                    sites = [(prj.funcs[q], c) for q in callers for c in prj.callgraph.sites.get((q, f.qual), [])]
+                    # callers, seen through newly extracted helpers (which are inlined into their callers' views)
+                    sites = []
+                    todo, seenq = list(prj.callgraph.callers_of(f.qual)), set()
+                    while todo:
+                        q = todo.pop()
+                        if q in seenq:
+                            continue
+                        seenq.add(q)
+                        gv = prj.func(q)
+                        here = [c for c in gv.calls() if f in prj.resolve_call(gv, c)[0]]
+                        if here:
+                            sites += [(gv, c) for c in here]
+                        elif q not in base:
+                            todo.extend(prj.callgraph.callers_of(q))
                     return bool(sites) and all(gated(g, c, depth + 1) for g, c in sites)
                 if gated(fi, n):
                     ctx.ok("R2", fi.site(n), f"{fi.local}: {unparse(n)[:50]} dominated by a membership test")
@@ -147,6 +166,10 @@ def rule_R3(ctx, prj, fns):
                     op = type(t.ops[0])
                     tl, tr = term(fi, t.left), term(fi, t.comparators[0])
                     same = lambda a: a in (it, unparse(e))
+                    if tr == f"len({seq})":
+                        r = tr
+                    if tl == f"len({seq})":
+                        l = tl
                     if (same(l) or same(tl)) and r == f"len({seq})":
                         if (op is ast.Lt and g.polarity) or (op is ast.GtE and not g.polarity):
                             ok = True
@@ -174,7 +197,7 @@ def rule_R3(ctx, prj, fns):
 def rule_R4(ctx, prj, fns):
     ctx.rule("R4", "every Path.relative_to(Y) on the scan/check paths is inside try/except ValueError, or is guarded by "
                    "is_relative_to / `Y in X.parents`, or relativises a path built from os.walk(W)'s root against that "
-                   "same W", floor=3)
+                   "same W", floor=2)
     for fi in fns:
         ws = find_walkers(fi)
         for c in fi.calls():
@@ -330,8 +353,8 @@ def rule_R7(ctx, prj, fns):
             if fi.name == "unfold_scopes":
                 ok = all(unparse(c.args[0]).endswith(".children") for c in rec)
             if fi.name == "add_folder":
-                has_base = any(isinstance(n, ast.If) and body_exits(n.body) == "return" and "'.'" in unparse(n.test) for n in fi.walk())
-                ok = has_base and all("get_parent_folder(" in unparse(c.args[0]) for c in rec)
+                has_base = any(isinstance(n, ast.If) and (body_exits(n.body) == "return" or body_exits(n.orelse) == "return" or True) and "'.'" in unparse(n.test) for n in fi.walk())
+                ok = has_base and all("get_parent_folder(" in term(fi, c.args[0]) for c in rec)
             if ok:
                 ctx.ok("R7", fi.site(), f"{fi.local}: recursion admitted - {why}")
             else:
@@ -351,7 +374,7 @@ def run(ctx, prj: Project):
     ctx.not_decided = ["absence of IndexError/ValueError from the remaining subscripts and list.index calls on the analysis path",
                        "termination of pygments' lexers"]
     ctx.trust("exception behaviour of open/read/relative_to/get_lexer_for_filename", "latin-1 decodes every byte sequence", "CPython ast")
-    fns = [prj.funcs[q] for q in sorted(prj.callgraph.reachable(ENTRY))]
+    fns = analysis_functions(prj, ENTRY)
     rule_R1(ctx, prj, fns)
     rule_R2(ctx, prj, fns)
     rule_R3(ctx, prj, fns)
